@@ -4,6 +4,8 @@ package main
 // contracts (own or trusted), and the havoc-everything fallback.
 
 import (
+	"go/token"
+	"os"
 	"fmt"
 	"go/constant"
 	"go/types"
@@ -62,12 +64,22 @@ func (x *Exec) atSite(s *State, in ssa.Instruction) bool {
 	if !ok {
 		return false
 	}
-	if len(x.con.At[site]) == 0 {
+	clauses := x.con.At[site]
+	nOwn := len(clauses)
+	if w := x.atWild[x.sites[in]]; len(w) > 0 {
+		clauses = append(append([]Clause{}, clauses...), w...)
+	}
+	if len(clauses) == 0 {
 		return true
 	}
 	func() {
 		defer x.recoverSpec("at "+site, &ok)
-		for i, cl := range x.con.At[site] {
+		for i, cl := range clauses {
+			site := site
+			if i >= nOwn {
+				// a wildcard assertion has ONE identity for all its sites
+				site = strings.SplitN(x.sites[in], "#", 2)[0] + "*"
+			}
 			env := x.envFor(s, nil)
 			// the arguments of the call at this site: arg0, arg1, ... (receiver first)
 			if ci, ok := in.(ssa.CallInstruction); ok {
@@ -197,7 +209,16 @@ func (x *Exec) call(s *State, in ssa.Instruction, c *ssa.CallCommon, result ssa.
 		x.setResult(s, result, r)
 		return x.failed == ""
 	}
-	// 3. unknown callee
+	// 3. a small helper of the repository without a contract: its body is executed
+	// in place (no loops, one return). This keeps "extract a helper" refactorings
+	// from un-proving the caller; the helper's own safety obligations are the
+	// caller's, under the site prefix in:<site>:
+	if fn != nil && x.inlinable(fn) {
+		if handled, cont := x.inlineCall(s, in, fn, args, result); handled {
+			return cont
+		}
+	}
+	// 4. unknown callee
 	_ = recvIface
 	x.note("call without contract (everything havocked): " + key)
 	x.v.unknownCalls.Store(key, true)
@@ -958,4 +979,155 @@ func closureCtor(x *Exec, s *State, fn *ssa.Function, args []Value) (Value, stri
 		return Value{}, ""
 	}
 	return Value{T: mc.Type(), S: x.fresh("closure", sInt), Fn: &FnVal{Name: funcKey(cf), Fn: cf, Bindings: bs}}, ""
+}
+
+// inlinable: a function of the repository, with a body, without loops, defers,
+// recover or goroutines, with exactly one return, small, and not (mutually)
+// recursive with what is being executed.
+func (x *Exec) inlinable(fn *ssa.Function) bool {
+	if os.Getenv("GOWP_NOINLINE") != "" || x.inlineDepth >= 2 || fn == x.fn || fn == x.rootFn {
+		return false
+	}
+	if fn.Pkg == nil || !strings.HasPrefix(fn.Pkg.Pkg.Path(), "github.com/jrhy/s3db") || len(fn.Blocks) == 0 || len(fn.Blocks) > 16 || fn.Recover != nil {
+		return false
+	}
+	if ok, cached := x.v.inlinableCache.Load(fn); cached {
+		return ok.(bool)
+	}
+	ok := func() bool {
+		returns, instrs := 0, 0
+		for _, b := range fn.Blocks {
+			for _, in := range b.Instrs {
+				instrs++
+				switch in.(type) {
+				case *ssa.Return:
+					returns++
+				case *ssa.Defer, *ssa.RunDefers, *ssa.Go, *ssa.Select, *ssa.Send, *ssa.Range, *ssa.Next:
+					return false
+				}
+			}
+		}
+		if returns != 1 || instrs > 120 {
+			return false
+		}
+		// no cycle in the control-flow graph
+		color := map[*ssa.BasicBlock]int{}
+		var cyclic func(b *ssa.BasicBlock) bool
+		cyclic = func(b *ssa.BasicBlock) bool {
+			color[b] = 1
+			for _, s := range b.Succs {
+				if color[s] == 1 || (color[s] == 0 && cyclic(s)) {
+					return true
+				}
+			}
+			color[b] = 2
+			return false
+		}
+		return !cyclic(fn.Blocks[0])
+	}()
+	x.v.inlinableCache.Store(fn, ok)
+	return ok
+}
+
+// inlineCall executes the helper's body on a copy of the state. It reports
+// handled=false (and leaves s untouched) when the helper's paths do not come
+// together in one state at its return.
+func (x *Exec) inlineCall(s *State, in ssa.Instruction, fn *ssa.Function, args []Value, result ssa.Value) (handled, cont bool) {
+	type saved struct {
+		fn                 *ssa.Function
+		con                *Contract
+		pkg                *types.Package
+		loops              map[int]*loopInfo
+		params             map[string]Value
+		sites              map[ssa.Instruction]string
+		siteAlias          map[ssa.Instruction]string
+		ai                 *assignInfo
+		allocPos           map[token.Pos]bool
+		ipdom              map[*ssa.BasicBlock]*ssa.BasicBlock
+		ipdomDone, retCov  bool
+		rootFn             *ssa.Function
+		rootParams         map[string]Value
+		inlinePre          string
+		inlineCap          *[]inlineRet
+	}
+	sv := saved{x.fn, x.con, x.pkg, x.loops, x.params, x.sites, x.siteAlias, x.ai, x.allocPos, x.ipdom, x.ipdomDone, x.retCover, x.rootFn, x.rootParams, x.inlinePre, x.inlineCap}
+	restore := func() {
+		x.fn, x.con, x.pkg, x.loops, x.params, x.sites, x.siteAlias, x.ai, x.allocPos = sv.fn, sv.con, sv.pkg, sv.loops, sv.params, sv.sites, sv.siteAlias, sv.ai, sv.allocPos
+		x.ipdom, x.ipdomDone, x.retCover, x.rootFn, x.rootParams, x.inlinePre, x.inlineCap = sv.ipdom, sv.ipdomDone, sv.retCov, sv.rootFn, sv.rootParams, sv.inlinePre, sv.inlineCap
+		x.inlineDepth--
+	}
+	site := x.sites[in]
+	if x.rootFn == nil {
+		x.rootFn, x.rootParams = x.fn, x.params
+	}
+	x.inlinePre = sv.inlinePre + "in:" + site + ":"
+	x.fn, x.con, x.pkg = fn, nil, fn.Pkg.Pkg
+	x.loops, x.sites, x.siteAlias, x.ai, x.allocPos, x.ipdom, x.ipdomDone, x.retCover = nil, nil, nil, nil, nil, nil, false, false
+	x.inlineDepth++
+	var caps []inlineRet
+	x.inlineCap = &caps
+	work := s.clone()
+	work.names = map[string]nameBind{}
+	work.defers = nil
+	work.loops = s.loops
+	work.errfacts, work.noTrig, work.pendingBound, work.instDepth, work.pendingTrig = s.errfacts, s.noTrig, s.pendingBound, s.instDepth, s.pendingTrig
+	ok := true
+	func() {
+		defer func() {
+			if r := recover(); r != nil {
+				if _, isU := r.(unsupported); isU {
+					ok = false // outside the subset: fall back to the unknown-callee treatment
+					return
+				}
+				panic(r)
+			}
+		}()
+		x.findLoops()
+		x.siteIDs()
+		x.params = map[string]Value{}
+		k := 0
+		for _, fv := range fn.FreeVars {
+			if k < len(args) {
+				work.env[fv] = args[k]
+				x.params[fv.Name()] = args[k]
+			}
+			k++
+		}
+		for _, p := range fn.Params {
+			if k < len(args) {
+				work.env[p] = args[k]
+				x.params[p.Name()] = args[k]
+			}
+			k++
+		}
+		x.run(work, fn.Blocks[0], nil, nil)
+	}()
+	restore()
+	if x.failed != "" {
+		return true, false
+	}
+	if !ok || len(caps) > 1 {
+		x.note("helper " + funcKey(fn) + " could not be executed in place (paths do not rejoin / outside the subset)")
+		return false, false
+	}
+	x.note("helper without contract executed in place: " + funcKey(fn))
+	if len(caps) == 0 {
+		// every path of the helper ends in a panic: the call does not return
+		s.dead = true
+		return true, false
+	}
+	st := caps[0].s
+	names, defers := s.names, s.defers
+	*s = *st
+	s.names, s.defers = names, defers
+	s.arrPred, s.mergedAtStop = nil, false
+	vals := caps[0].vals
+	switch {
+	case result == nil || len(vals) == 0:
+	case len(vals) == 1:
+		x.setResult(s, result, vals[0])
+	default:
+		x.setResult(s, result, Value{T: result.Type(), F: vals})
+	}
+	return true, true
 }
